@@ -29,7 +29,7 @@ func runC02(c *core.Ctx) {
 	c.Rule("C02.keys", "A7: forkKey is built from the same roles on both sides: forkKeys{Database←dbrp.Database, RetentionPolicy←dbrp.RetentionPolicy, Measurement←measurement} as the full product dbrps×measurements; forkPoint looks up {p.Database(), p.RetentionPolicy(), p.Name()} and the same with Measurement \"\"; Task.Measurements appends the Measurement of every FromNode")
 	c.Rule("C02.collect", "A3/A2: every Collect in forkPoint (and helpers it calls) is on an edge ranged from tm.forks[<one of the two lookup keys>], passes the point itself, and sits in a loop without break/return (an edge error never hides the point from later tasks)")
 	c.Rule("C02.single", "A1: when forkPoint collects from more than one lookup, every loop but the first skips task ids present in the first lookup's map before Collect (a task registered under both keys gets the point once)")
-	c.Rule("C02.register", "A2: newFork registers the task's edge under every key of forkKeys and remembers every key; delFork visits every remembered key, deletes only the task's own entry, closes (not aborts) the edge at most once and forgets the keys")
+	c.Rule("C02.register", "A2: newFork registers the task's edge under every key of forkKeys and remembers every key, and the task map published under a key is that key's existing map or one made inside the loop (never shared between keys); delFork visits every remembered key, deletes only the task's own entry, closes (not aborts) the edge at most once and forgets the keys")
 	c.Rule("C02.locks", "A5: tm.forks, taskToForkKeys, forkStats, tasks are accessed only with tm.mu held — in the function itself or, for the helpers documented to need it, at every call site")
 	c.Rule("C02.matches", "A1: FromNode.matches is true iff no configured selector (db, rp, name) differs from the point's and the where-expression is absent or evaluates without error to true")
 	c.Rule("C02.where", "A3: the selection a from() node evaluates is the conjunction of all its where() properties: pipeline.FromNode.Where, when a condition is already set, stores BinaryNode{AND, <the condition set so far>, <the new condition>} (two different operands), otherwise the new lambda")
@@ -467,6 +467,74 @@ func c02Register(c *core.Ctx, root *packages.Package) {
 		}
 		if good {
 			c.Ok("C02.register", "TaskMaster.newFork")
+		}
+		// the task map published under a key that had none is made for that key: inside the loop, once per iteration. A map
+		// made before the loop is shared by all the new keys, and a task that later subscribes to one of them appears under all.
+		var loop *ast.RangeStmt
+		ast.Inspect(fn.Decl.Body, func(nd ast.Node) bool {
+			if rs, ok := nd.(*ast.RangeStmt); ok && loop == nil {
+				if call, ok := ast.Unparen(rs.X).(*ast.CallExpr); ok {
+					if m := core.Callee(info, call); m != nil && m.Name() == "forkKeys" {
+						loop = rs
+					}
+				}
+			}
+			return true
+		})
+		if loop == nil {
+			c.Undecided("C02.register", "TaskMaster.newFork#fresh-map", fn.Decl.Pos(), "loop over forkKeys(...) not found")
+		} else {
+			var published types.Object
+			ast.Inspect(loop.Body, func(nd ast.Node) bool {
+				if as, ok := nd.(*ast.AssignStmt); ok && len(as.Lhs) == 1 && len(as.Rhs) == 1 {
+					if ix, ok := ast.Unparen(as.Lhs[0]).(*ast.IndexExpr); ok && an.FieldSel(info, ix.X, "TaskMaster", "forks") {
+						if id, ok := ast.Unparen(as.Rhs[0]).(*ast.Ident); ok {
+							published = info.Uses[id]
+						}
+					}
+				}
+				return true
+			})
+			bad := ""
+			var badPos token.Pos
+			nsrc := 0
+			if published == nil {
+				bad, badPos = "the value published into tm.forks[key] is not a local map variable", loop.Pos()
+			} else {
+				ast.Inspect(fn.Decl.Body, func(nd ast.Node) bool {
+					as, ok := nd.(*ast.AssignStmt)
+					if !ok {
+						return true
+					}
+					for i, l := range as.Lhs {
+						id, ok := l.(*ast.Ident)
+						if !ok || (info.Defs[id] != published && info.Uses[id] != published) {
+							continue
+						}
+						var rhs ast.Expr
+						if len(as.Rhs) == len(as.Lhs) {
+							rhs = as.Rhs[i]
+						} else if len(as.Rhs) == 1 && i == 0 {
+							rhs = as.Rhs[0]
+						} else {
+							continue
+						}
+						nsrc++
+						rhs = ast.Unparen(rhs)
+						if ix, ok := rhs.(*ast.IndexExpr); ok && an.FieldSel(info, ix.X, "TaskMaster", "forks") {
+							continue // the key's existing map
+						}
+						if call, ok := rhs.(*ast.CallExpr); ok && core.IsBuiltin(info, call, "make") && loop.Body.Pos() <= call.Pos() && call.End() <= loop.Body.End() {
+							continue // made in this iteration
+						}
+						if bad == "" {
+							bad, badPos = "the map published under a key comes from "+types.ExprString(rhs)+", which is neither the key's existing map nor a map made inside the loop over the keys", as.Pos()
+						}
+					}
+					return true
+				})
+			}
+			c.Check(bad == "" && nsrc >= 2, "C02.register", "TaskMaster.newFork#fresh-map", badPos, "%s (sources found: %d): keys that had no subscriber share one task map, so a task that later subscribes to one of them is delivered the points of all — of database/retention-policy pairs it never declared", bad, nsrc)
 		}
 	}
 	if fn := c.Need("C02.register", "", "TaskMaster", "delFork"); fn != nil {
